@@ -15,7 +15,13 @@ TEXT = {
           "for all well-formed intervals with any open/closed pattern and all members x, y the result contains x+y, x-y, x*y, -x, x^n "
           "(tie cases, zero edges and symmetric even powers are the proof's case split), point operands give the exact point. Tied to "
           "the C code by an exhaustive sweep over all interval pairs with end points in {-2..2} plus random intervals on every run. "
-          "General value intervals (lp_interval_add/mul/pow/sgn) with integer/dyadic/rational/infinite end points are mirrored too; their general product is proved to coincide with the rational model on finite end points (so the enclosure theorem transfers), infinite end points and interval evaluation of polynomials are covered by correspondence and a lost-point search only.",
+          "General value intervals (lp_interval_add/mul/pow/sgn) with integer/dyadic/rational/infinite end points are mirrored too; their general product is proved to coincide with the rational model on finite end points (so the enclosure theorem transfers), infinite end points are covered by correspondence and a lost-point search only. Polynomial evaluation over a box "
+          "(lp_polynomial_interval_value): Lean mirror of coefficient_interval_value (powers of the top variable, zero coefficients skipped, "
+          "accumulation from the point 0) with polyValue_encloses - for every finite box of well-formed intervals, every variable order and "
+          "every point of the box the value of the polynomial lies in the computed interval - tied by exact equality of the returned interval "
+          "(h_pival, both variable orders, pre-used outputs). Interval form of the sign-condition test "
+          "(lp_sign_condition_consistent_interval): mirror + consistentInterval_sound - an answer true implies that every member of the "
+          "interval (finite or infinite ends, any strictness) satisfies the condition - tied by equality of the answers for all six conditions.",
   "design_ref": "5.15",
   "note": "hand mirror of arithmetic.c tied by correspondence; algebraic end points not replayed; exact scalar arithmetic trusted from C17",
   "technique": "Lean 4 proof over mirror model + exhaustive/differential correspondence harness",
